@@ -97,6 +97,71 @@ func c12EvalSwitch(fd *ast.FuncDecl, arg string, argIsRecv bool) (c12Ret, error)
 	return c12Ret{}, fmt.Errorf("%s: no return for %s", fd.Name.Name, arg)
 }
 
+// c12Supported evaluates the nested switch of Type.IsFuncSupported for one (type, function).
+func c12Supported(fd *ast.FuncDecl, typeName, funcName string) (bool, error) {
+	if fd == nil || fd.Body == nil {
+		return false, fmt.Errorf("IsFuncSupported not found")
+	}
+	last := func(e ast.Expr) string {
+		n := exprName(e)
+		if i := strings.LastIndexByte(n, '.'); i >= 0 {
+			n = n[i+1:]
+		}
+		return n
+	}
+	boolOf := func(stmts []ast.Stmt) (bool, bool) {
+		for _, s := range stmts {
+			if r, ok := s.(*ast.ReturnStmt); ok && len(r.Results) == 1 {
+				if id, ok := r.Results[0].(*ast.Ident); ok && (id.Name == "true" || id.Name == "false") {
+					return id.Name == "true", true
+				}
+			}
+		}
+		return false, false
+	}
+	var evalBody func(stmts []ast.Stmt, depth int) (bool, bool)
+	evalBody = func(stmts []ast.Stmt, depth int) (bool, bool) {
+		for _, s := range stmts {
+			sw, ok := s.(*ast.SwitchStmt)
+			if !ok {
+				continue
+			}
+			want := typeName
+			if depth == 1 {
+				want = funcName
+			}
+			var def *ast.CaseClause
+			for _, c := range sw.Body.List {
+				cc := c.(*ast.CaseClause)
+				if cc.List == nil {
+					def = cc
+					continue
+				}
+				for _, e := range cc.List {
+					if last(e) == want {
+						if v, ok := boolOf(cc.Body); ok {
+							return v, true
+						}
+						return evalBody(cc.Body, depth+1)
+					}
+				}
+			}
+			if def != nil {
+				if v, ok := boolOf(def.Body); ok {
+					return v, true
+				}
+				return evalBody(def.Body, depth+1)
+			}
+		}
+		return boolOf(stmts)
+	}
+	v, ok := evalBody(fd.Body.List, 0)
+	if !ok {
+		return false, fmt.Errorf("IsFuncSupported(%s,%s): no boolean return found", typeName, funcName)
+	}
+	return v, nil
+}
+
 func init() {
 	Register(Fact{Module: "C12", Gen: func(repo string) (string, error) {
 		var sb strings.Builder
@@ -383,6 +448,30 @@ func init() {
 				fpRows = append(fpRows, fmt.Sprintf("(%d, %d, [%s])", ti, fi, strings.Join(ks, ", ")))
 			}
 		}
+		// DownSamplingFunc and IsFuncSupported (metadataLookup.planField)
+		var dsRows, supRows []string
+		isf := FindFunc(ft, "Type", "IsFuncSupported")
+		for ti, tn := range typeNames {
+			r, err := c12EvalSwitch(FindFunc(ft, "Type", "DownSamplingFunc"), tn, true)
+			if err != nil {
+				return "", err
+			}
+			if len(r.names) != 1 {
+				return "", fmt.Errorf("DownSamplingFunc(%s): unexpected shape", tn)
+			}
+			dsRows = append(dsRows, fmt.Sprintf("(%d, %d)", ti, nconsts[r.names[0]]))
+			for fi, fnn := range funcNames {
+				v, err := c12Supported(isf, tn, fnn)
+				if err != nil {
+					return "", err
+				}
+				if v {
+					supRows = append(supRows, fmt.Sprintf("(%d, %d)", ti, fi))
+				}
+			}
+		}
+		fmt.Fprintf(&sb, "/-- Type.DownSamplingFunc() per field type -/\ndef downSamplingFuncs : List (Nat × Nat) := [%s]\n", strings.Join(dsRows, ", "))
+		fmt.Fprintf(&sb, "/-- the (field type, function type) pairs for which Type.IsFuncSupported is true -/\ndef supportedFuncs : List (Nat × Nat) := [%s]\n", strings.Join(supRows, ", "))
 		fmt.Fprintf(&sb, "/-- Type.GetFuncFieldParams(funcType) for every (field type, function type) -/\ndef funcFieldParams : List (Nat × Nat × List Nat) := [%s]\n", strings.Join(fpRows, ", "))
 		fmt.Fprintf(&sb, "def defaultFieldParams : List (Nat × List Nat) := [%s]\n", strings.Join(defRows, ", "))
 		fmt.Fprintf(&sb, "def orderByFuncs : List (Nat × Nat) := [%s]\n", strings.Join(obRows, ", "))
